@@ -15,6 +15,7 @@ RULE = ('(a) random well-typed trees (generator of C05, depth<=4, memory reads a
         'boundary operands (deterministic grid); (c) n-ary + * ^ & | with 3..5 operands mixing constants and symbols; (e) ((x o2 M) o1 S) + y for all 11x11 pairs of binary operators with M, S bound to boundary constants by the state and x, y symbolic; (d) compositions: 9 slot layouts x every combination of slot kinds (constant, identifier bound to a constant, symbolic identifier, conditional with symbolic / constant condition and constant arms). Values are compared '
         'on 6 valuations. A case = (canonical tree, canonical state); non-trivial = the state binds at least one identifier or cell the '
         'expression reads.')
+RULE += " Round 6: machines built with a func_read callback over a fixed backing memory image: cells of several widths at concrete addresses, read back at every width from the same address and at addresses no cell touches, directly and through a pointer the state binds to a constant (reads that start inside a cell are C07's business)."
 ASSUMPTIONS = ['irsem is the meaning of the IR', 'symbolic bases p/q/const are kept >= 1 MiB apart in every valuation (no aliasing outside the statement)',
                'division by zero / quotient overflow / bsf(0) are not compared']
 
